@@ -383,7 +383,6 @@ def rule_consulted_every_step(chk):
                detail_ok='every continuing path calls _compute_timestep()')
     # after the criteria have been consulted the proposed step may only be shortened: the one adjustment allowed is landing on the final time,
     # and only when the step would otherwise pass tf - epsilon (so the step grows by at most epsilon, never to a multiple of itself)
-    from verif_static import norm as N
     M.set_parents(gt)
     rv = set(U(r.value) for r in ast.walk(gt) if isinstance(r, ast.Return) and isinstance(r.value, ast.Name))
     last = max([g.nodes[c_].ast.lineno for c_ in comp] or [0])
